@@ -235,6 +235,27 @@ class C04(spec.Spec):
                 fam.append(("edited-in-place:" + how, "diff", e))
                 if how == "add_asserted_type":
                     fam.append(("built-like-edited", "diff", rebuild.rebuild(m2)))
+            # ... and through the setter that bypasses add_attributes: a new end time on every activity
+            e = self.fresh(h).doc
+            recs = list(e.get_records()) + [r for b in e.bundles for r in b.get_records()]
+            act = machine.PROV_URI + "Activity"
+            if any(r.get_type().uri == act for r in recs):
+                import datetime
+                for r in recs:
+                    hash(r)
+                _ = (e == e, e != base, len(set(recs)))
+                t9 = datetime.datetime(2033, 3, 3, 3, 3, 3)
+                for r in recs:
+                    if r.get_type().uri == act:
+                        r.set_time(endTime=t9)
+                end = machine.PROV_URI + "endTime"
+                sett = lambda rs: tuple(
+                    (t, i, tuple(sorted({(a, v) for a, v in attrs if a != end} | {(end, observe.vobs(t9))}, key=repr))) if t == act
+                    else (t, i, attrs) for t, i, attrs in rs)
+                top, bundles = mdoc
+                m3 = (sett(top), tuple((u, sett(rs)) for u, rs in bundles))
+                fam.append(("edited-in-place:set_time", "diff", e))
+                fam.append(("built-like-edited:set_time", "diff", rebuild.rebuild(m3)))
         except Exception as ex:
             out.filters["in-place-edit-raised:%s" % type(ex).__name__] += 1
         if len(fam) > 70:
